@@ -9,7 +9,9 @@ import parglare
 from parglare import GLRParser, Grammar, Parser  # noqa: F401
 from parglare.tables import ACCEPT, LALR, REDUCE, SHIFT, SLR  # noqa: F401
 
-assert parglare.__file__.startswith("/repo/"), parglare.__file__
+import os as _os
+
+assert parglare.__file__.startswith(_os.environ.get("PGV_REPO", "/repo") + "/"), parglare.__file__
 
 
 class CaseTimeout(Exception):
